@@ -314,8 +314,9 @@ class DiscriminatorEnumCollector:
                 member_name = self._generate_member_name(value)
                 enum_values.append((member_name, value))
 
-            # Track variant enum name for skipping
-            if resolved_enum_name:
+            # Track variant enum name for skipping - unless that enum is a schema of its own which schemas outside this
+            # union refer to as well (a filter model, a variant that is not part of the union): they still need it
+            if resolved_enum_name and not self._used_outside_union(resolved_enum_name, variants):
                 variant_enum_names.add(resolved_enum_name)
 
         if not enum_values:
@@ -349,7 +350,11 @@ class DiscriminatorEnumCollector:
             disc_property = variant_schema.properties.get(property_name)
             if disc_property:
                 old_generation_name = disc_property.generation_name
-                if old_generation_name and old_generation_name in self.schemas:
+                if (
+                    old_generation_name
+                    and old_generation_name in self.schemas
+                    and not self._used_outside_union(old_generation_name, variants)
+                ):
                     del self.schemas[old_generation_name]
                     variant_enum_names.add(old_generation_name)
                     logger.debug(
@@ -375,6 +380,23 @@ class DiscriminatorEnumCollector:
             f"with {len(enum_values)} values for union '{union_schema.name}'. "
             f"Updated {len(variants)} variant schemas to reference it."
         )
+
+    def _used_outside_union(self, enum_name: str, variants: list[IRSchema]) -> bool:
+        """Tell whether a property of a schema that is NOT a variant of this union refers to the named enum schema."""
+        enum_schema = self.schemas.get(enum_name)
+        if enum_schema is None:
+            return False
+        variant_ids = {id(self._resolve_variant_schema(v)) for v in variants}
+        for schema in self.schemas.values():
+            if id(schema) in variant_ids or not getattr(schema, "properties", None):
+                continue
+            for prop in schema.properties.values():
+                if prop is enum_schema or getattr(prop, "_refers_to_schema", None) is enum_schema:
+                    return True
+                items = getattr(prop, "items", None)
+                if items is enum_schema:
+                    return True
+        return False
 
     def _resolve_variant_schema(self, variant: IRSchema) -> IRSchema | None:
         """
